@@ -85,10 +85,14 @@ def add_controllers(rng, net, allow_frac):
     descs = []
     n = rng.randint(1, 5)
     levels = [0, 0, 0, 1, 1, 2, [0, 1], 0.5]
+    # ties in order are resolved by np.argsort (not stable with the SIMD sort of numpy 2): mostly distinct orders, so that the
+    # call trace is determined; cases with ties are checked by the order oracle and the order comparison modulo ties only
+    distinct = rng.random() < 0.75
+    pool = rng.sample([-1, 0, 0.5, 1, 1.5, 2, 3], 7)
     for k in range(n):
         r = rng.random()
         lev = rng.choice(levels)
-        order = rng.choice([0, 0, 1, 2, -1, 0.5])
+        order = pool[k] if distinct else rng.choice([0, 0, 1, 2, -1, 0.5])
         ins = rng.random() < 0.88
         kw = dict(level=lev, order=order, in_service=ins)
         use3w = len(net.trafo3w) > 0 and rng.random() < 0.3
@@ -218,7 +222,13 @@ def one_case(ctx, rng, forced=None):
             cs(n)
             trace.append(["step", d["cid"], read_vars(n, descs)])
 
-        c.is_converged, c.control_step = is_conv, step
+        rp = c.repair_control
+
+        def repair(n):
+            rp(n)
+            trace.append(["repair", d["cid"]])
+
+        c.is_converged, c.control_step, c.repair_control = is_conv, step, repair
 
     def run(n, **kw):
         try:
@@ -251,7 +261,7 @@ def one_case(ctx, rng, forced=None):
         outcome = cq.Err("UserWarning")
     # unwrap
     for d in descs:
-        for a in ("is_converged", "control_step"):
+        for a in ("is_converged", "control_step", "repair_control"):
             d["obj"].__dict__.pop(a, None)
     final_vars = read_vars(net, descs)
 
@@ -365,9 +375,9 @@ def one_case(ctx, rng, forced=None):
         el, tid = d["element"], d["tid"]
         tp = e[2][tap_slot(el, tid)]
         lo, hi = float(net[el].at[tid, "tap_min"]), float(net[el].at[tid, "tap_max"])
-        if not math.isnan(tp) and not (lo <= tp <= hi) and lo <= vars0[tap_slot(el, tid)] <= hi:
-            prev = _prev_tap(trace, e, tap_slot(el, tid), vars0)
-            frac = d["type"] == "disc" and prev is not None and prev != int(prev)
+        prev = _prev_tap(trace, e, tap_slot(el, tid), vars0)
+        if not math.isnan(tp) and not (lo <= tp <= hi) and prev is not None and lo <= prev <= hi:
+            frac = d["type"] == "disc" and prev != int(prev)
             viol.append((KF_FRAC if frac else "spec", "controller %d moved tap_pos of %s %d to %r outside [%r, %r]" % (
                 d["cid"], el, tid, tp, lo, hi)))
             break
@@ -386,7 +396,15 @@ def one_case(ctx, rng, forced=None):
         ctx.count("ctrl_" + d["type"])
     ctx.case(case, nontrivial=steps > 0 and len(in_service) >= 2,
              sample={"controllers": case["controllers"], "outcome": str(outcome), "trace": case["trace"][:12]})
-    impl = [outcome, trace, final_vars, post]
+    tie = False
+    for a in in_service:
+        for b_ in in_service:
+            if a["cid"] < b_["cid"] and float(ctab.at[a["cid"], "order"]) == float(ctab.at[b_["cid"], "order"]) \
+                    and set(_levels(ctab, a)) & set(_levels(ctab, b_)):
+                tie = True
+    if tie:
+        ctx.count("order_ties_trace_not_compared")
+    impl = [outcome, trace, final_vars, post, tie]
     return term, oterm, impl, case, ctab, descs
 
 
@@ -542,7 +560,9 @@ def _cmp_slots(a, b):
 
 
 def compare(impl, mod):
-    outcome, trace, final_vars, post = impl
+    outcome, trace, final_vars, post, tie = impl
+    if tie:
+        return None
     if isinstance(mod, cq.Err):
         return None if outcome == mod else "model raises %r, impl %r" % (mod, outcome)
     mo, mt, mv, mpost = mod
@@ -560,7 +580,7 @@ def compare(impl, mod):
         elif a[0] == "step":
             if a[1] != m[1] or not _cmp_slots(a[2], m[2]):
                 return "event %d: impl %s model %s" % (k, a, m)
-        elif a[0] == "run":
+        elif a[0] in ("run", "repair"):
             if a[1] != m[1]:
                 return "event %d: impl %s model %s" % (k, a, m)
     if outcome == "ok":
@@ -597,7 +617,7 @@ def run(ctx):
     rng = ctx.rng
     terms, oterms, impls, cases, ctabs = [], [], [], [], []
     import glob, os
-    for k in range(ctx.n(160, 1500)):
+    for k in range(ctx.n(80, 1500)):
         # ordering is compared on the table before the run
         st = rng.getstate()
         term, oterm, impl, case, ctab, descs = one_case(ctx, rng)
@@ -606,13 +626,13 @@ def run(ctx):
         impls.append(impl)
         cases.append(case)
         ctabs.append((ctab, descs))
-    model = ctx.coq_eval("c13", "Base.QN C13.Model", terms, shard=12)
+    model = ctx.coq_eval("c13", "Base.QN C13.Model", terms, shard=10, timeout=1200)
     for case, impl, mod in zip(cases, impls, model):
         ctx.corr_checked += 1
         w = compare(impl, mod)
         if w:
             ctx.disagreement("run_control call trace differs from the Coq loop: " + w[:600], case)
-    omodel = ctx.coq_eval("c13o", "Base.QN C13.Model", oterms, shard=50)
+    omodel = ctx.coq_eval("c13o", "Base.QN C13.Model", oterms, shard=50, timeout=1200)
     for case, (ctab, descs), om in zip(cases, ctabs, omodel):
         ctx.corr_checked += 1
         # rebuild the impl order from the stored controller table
